@@ -4,7 +4,7 @@ from vlib.core import Case, hx
 ID = "C05"
 N = 0xFFFFFFFFFFFFFFFFFFFFFFFFFFFFFFFEBAAEDCE6AF48A03BBFD25E8CD0364141
 RULE = ("op acct.sign <key> <digest> (in one process: try_sign twice, sign, another key signing the same digest, this key signing another digest, then sign/try_sign again — all results for (key, digest) must be equal and the other key's two results too): keys 1,2,n-2,n-1,random; digests 0,1,n-1,n,n+1,2^256-1,random; "
-        "a corpus of 301 pairs whose signature has a short r or s (60 per quick run); non-trivial = distinct (key, digest); the run must contain both parities and both s halves (counted via extra check); "
+        "a corpus of pairs whose signature has a short r or s (60 per quick run) or a zero byte at each interior position 1..31 of r and of s; non-trivial = distinct (key, digest); the run must contain both parities and both s halves (counted via extra check); "
         "judge = independent ECDSA verify + public-key recovery (Spec.Ecdsa), 1<=r<n, 1<=s<=n/2, and for digests below n equality with the RFC 6979 signature computed from Spec.Rfc6979")
 EXHAUSTIVE_SWEEPS = {"quick": ["5 boundary keys x 8 boundary digests"], "thorough": ["5 boundary keys x 8 boundary digests"]}
 ASSUMPTIONS = ["LawfulCurve (prime-order group laws) is a hypothesis of the verify/recover theorems; the concrete secp256k1 is only cross-tested"]
@@ -27,8 +27,20 @@ def gen(rng, tier):
     import os
     from vlib import core
     corpus = [l.split() for l in open(os.path.join(core.VERIF, "data", "c05_short_scalars.txt")) if l.strip()]
-    for k, d, rb, sb in (corpus if tier == "thorough" else rng.sample(corpus, 60)):
+    short = [c for c in corpus if not c[2].startswith("zero-")]
+    inner = [c for c in corpus if c[2].startswith("zero-")]
+    for k, d, rb, sb in (short if tier == "thorough" else rng.sample(short, 60)):
         cases.append(Case("acct.sign %s %s" % (k, d), tags=("short-scalar", "r:%s-bytes" % rb if rb != "32" else "s:%s-bytes" % sb)))
+    # ... and a zero byte at every interior position 1..31 of r and of s (word-wise or byte-wise re-assembly of the scalars)
+    want = {("r", i) for i in range(1, 32)} | {("s", i) for i in range(1, 32)}
+    rng.shuffle(inner)
+    for k, d, zr, zs in inner:
+        got = {("r", int(i)) for i in zr.split(":")[1].split(".") if i != "-"} | {("s", int(i)) for i in zs.split(":")[1].split(".") if i != "-"}
+        if got & want or (tier == "thorough" and rng.random() < 0.2):
+            want -= got
+            cases.append(Case("acct.sign %s %s" % (k, d), tags=("zero-byte-inside",)))
+        if not want and tier != "thorough":
+            break
     return cases
 
 
